@@ -185,6 +185,22 @@ package environment
 //@   on call (*Manager).cancelCallsPendingAwait : assert held
 //@   on call (*Environment).CurrentState : assert held && willUnlock
 //@   ensures err == nil ==> doneSet
+//   C06: tasks are released (message sent, answer received) before any DESTROY hook runs; hook tasks are released in a
+//   second round; pending calls are cancelled; DONE is set only after both rounds and the environment leaves the listing
+//   only after DONE; a teardown that does not reach DONE returns an error (no half-removal).
+//@   ghostvar sends int = 0
+//@   ghostvar recvs int = 0
+//@   ghostvar cancelledCalls bool = false
+//@   ghostvar removed bool = false
+//@   on send task.Manager.MessageChannel : assert sends == recvs && sends < 2 ; sends = sends + 1
+//@   on recv * : assert recvs < sends ; recvs = recvs + 1
+//@   on call (callable.Calls).CallAll : assert sends == 1 && recvs == 1
+//@   on call .TriggerHooks : assert sends == 1 && recvs == 1
+//@   on aftercall (*Manager).cancelCallsPendingAwait : cancelledCalls = true
+//@   on call (*Environment).setState : assert sends == 2 && recvs == 2 && cancelledCalls
+//@   on call delete when argtype0 == "map[uid.ID]*environment.Environment" : assert doneSet && !removed ; removed = true
+//@   ensures err == nil ==> removed && cancelledCalls
+//@   ensures !doneSet ==> err != nil && !removed
 //   C10: teardown while RUNNING examines both end timestamps independently and sets each only if still empty
 //@   ghostvar sawEndGet bool = false
 //@   ghostvar sawCompGet bool = false
